@@ -167,6 +167,11 @@ def remI128 (x y : Int) : Outcome Int :=
   if y = 0 then .panic .rdivzero
   else if x = I128_MIN ∧ y = -1 then .panic .arith
   else .ok (x.tmod y)
+/-- `i128::wrapping_rem`: the truncated remainder; the one pair `(i128::MIN, -1)` on which `%` panics gives `0`, which is also
+    the mathematical value (`Int.tmod`), so nothing wraps visibly.  A zero divisor panics like `%`. -/
+def wrappingRemI128 (x y : Int) : Outcome Int :=
+  if y = 0 then .panic .rdivzero
+  else .ok (x.tmod y)
 /-- unary minus on `i128` (plain) -/
 def negI128 (prof : Profile) (x : Int) : Outcome Int := plainI128 prof (-x)
 
